@@ -10,6 +10,21 @@ TRUSTED_BASE = [
     "modelled, not verified: Rust language semantics (casts, shifts, match, derive(PartialEq, Ord, Copy, Default)), num_enum, derive_more, core integer parsing/printing, serde/serde_json, 64-bit usize",
 ]
 
+# appended to every property's rule in the evidence
+COMMON_RULE = (
+    "configurations: std = default features + serde + serde_repr, debug profile with overflow checks; rel = the same in "
+    "cargo's release profile (optimised, no debug assertions, no overflow checks); nostd = --no-default-features; "
+    "nostdrel = no default features + release; nostdserde = serde + serde_repr without std. "
+    "Scanner histories (all tags that feed scanners): messages as raw / structured / third-party implementors; scanners "
+    "created by new(), Default::default() (kinds 10-12, op 8, negative timeout); resets repeated 1..65537 times (2^32 "
+    "in the thorough tier of C14, optimised build); one block of 1-4 operations repeated 254-258 times in one of 30 "
+    "histories; op 9 = the previous operation again 70000 (optimised builds: 2^24+5) times; values and controller numbers "
+    "sometimes taken from other fields of the same history; system and non-CC messages with construct-like data bytes; "
+    "polling scanner on the mock clock with timeouts {0,1,5,1000 ns, 1 ms, 10 ms, 1.234567891 s, 60 s, 2^60 ns, 2^55 s, "
+    "2^64+1 ns, Duration::MAX, Default} and time steps around the timeout at ns resolution and whole seconds / "
+    "milliseconds later; tag 133 = a poll during which the timeout expires (clock readings advance the clock). "
+    "A panic anywhere while a record is executed is an observation ([-2]), never a crash of the run")
+
 # tag -> (number of header integers, integers per operation) for history-shaped inputs
 HISTORY_TAGS = {
     71: (4, 4),
